@@ -1,0 +1,57 @@
+//go:build verif
+
+// Contracts for package reversedns, read by /verif/govc (comment lines starting with //@).
+//
+// Ghost vocabulary (govc/lib_dns.go): dnsAns(q, v) — the slice v is exactly a slice the resolver returned for the query
+// text q; iptext(s) — the textual form (net.IP.String) of the address whose raw bytes are the string s. The resolver is
+// the only producer of dnsAns facts, so "the names attached to address A are names the resolver returned for A" is
+// dnsAns(iptext(string(A)), names).
+
+package reversedns
+
+// Cache invariant (pre.cache.inv / C18.cache.inv): every live reverse-dns cache entry holds a []string the resolver
+// returned for that very query text.
+
+// One lookup (through the process-wide cache): an error comes with no names; a success returns names the resolver gave
+// for exactly this query text (now or when the entry was cached); a failure is not cached.
+//@ func GetReverseDns
+//@ safety C18
+//@ requires[pre.cache.inv]  forallstr(k, cached("reverse-dns-"+k) ==> cachedAs("reverse-dns-"+k, []string) && dnsAns(k, cachedval("reverse-dns-"+k, []string)))
+//@ ensures[C18.dns.atom]    ret1 != nil ==> ret0 == nil
+//@ ensures[C18.dns.exact]   ret1 == nil ==> dnsAns(ipAddr, ret0)
+//@ ensures[C18.dns.hit]     old(cached("reverse-dns-"+ipAddr)) ==> sel(ghost(dns.n), ipAddr) == old(sel(ghost(dns.n), ipAddr)) && ret1 == nil && ret0 == old(cachedval("reverse-dns-"+ipAddr, []string))
+//@ ensures[C18.dns.once]    !old(cached("reverse-dns-"+ipAddr)) ==> sel(ghost(dns.n), ipAddr) == old(sel(ghost(dns.n), ipAddr)) + 1
+//@ ensures[C18.dns.nofail]  ret1 != nil ==> ghost(cache.has) == old(ghost(cache.has)) && ghost(cache.ref) == old(ghost(cache.ref)) && ghost(cache.exp) == old(ghost(cache.exp))
+//@ ensures[C18.cache.inv]   forallstr(k, cached("reverse-dns-"+k) ==> cachedAs("reverse-dns-"+k, []string) && dnsAns(k, cachedval("reverse-dns-"+k, []string)))
+//@ ensures[C18.dns.mono]    forallstr(q, forallint(a, old(selb(sel(ghost(dns.ans), q), a)) ==> selb(sel(ghost(dns.ans), q), a) && sel(ghost(dns.len), a) == old(sel(ghost(dns.len), a))))
+//@ modifies ghost clock, ghost cache.has, ghost cache.tag, ghost cache.ref, ghost cache.exp, ghost dns.ans, ghost dns.len, ghost dns.n
+
+// Lookup by address: the query sent is the textual form of exactly these bytes.
+//@ func GetReverseDnsForIP
+//@ safety C18
+//@ requires[pre.cache.inv]  forallstr(k, cached("reverse-dns-"+k) ==> cachedAs("reverse-dns-"+k, []string) && dnsAns(k, cachedval("reverse-dns-"+k, []string)))
+//@ ensures[C18.ip.atom]     ret1 != nil ==> ret0 == nil
+//@ ensures[C18.ip.exact]    ret1 == nil ==> dnsAns(iptext(string(ipAddress)), ret0)
+//@ ensures[C18.cache.inv]   forallstr(k, cached("reverse-dns-"+k) ==> cachedAs("reverse-dns-"+k, []string) && dnsAns(k, cachedval("reverse-dns-"+k, []string)))
+//@ ensures[C18.dns.mono]    forallstr(q, forallint(a, old(selb(sel(ghost(dns.ans), q), a)) ==> selb(sel(ghost(dns.ans), q), a) && sel(ghost(dns.len), a) == old(sel(ghost(dns.len), a))))
+//@ modifies ghost clock, ghost cache.has, ghost cache.tag, ghost cache.ref, ghost cache.exp, ghost dns.ans, ghost dns.len, ghost dns.n
+
+// Fan-out: one goroutine per address writes outputIPs[raw bytes of the address] under mu. Monitor invariant: every entry
+// of the shared map holds names the resolver returned for the address that is the entry's key — so no interleaving,
+// duplicate address or failed lookup can attach one address's names to another.
+//@ func GetReverseDnsForIPs
+//@ safety C18 C14 C10
+//@ monitor mu protects outputIPs
+//@ inv[C18.map.exact]       forallstr(s, has(outputIPs, s) ==> dnsAns(iptext(s), outputIPs[s]))
+//@ requires[pre.cache.inv]  forallstr(k, cached("reverse-dns-"+k) ==> cachedAs("reverse-dns-"+k, []string) && dnsAns(k, cachedval("reverse-dns-"+k, []string)))
+//@ ensures[C18.ips.noerr]   ret1 == nil && ret0 != nil
+//@ ensures[C18.ips.exact]   forallstr(s, has(ret0, s) ==> dnsAns(iptext(s), ret0[s]))
+//@ modifies ghost clock, ghost cache.has, ghost cache.tag, ghost cache.ref, ghost cache.exp, ghost dns.ans, ghost dns.len, ghost dns.n
+
+//@ func GetReverseDnsForIPs$1
+//@ safety C18 C14
+//@ requires[pre.nonnil]     outputIPs != nil && !held(mu)
+//@ requires[pre.cache.inv]  forallstr(k, cached("reverse-dns-"+k) ==> cachedAs("reverse-dns-"+k, []string) && dnsAns(k, cachedval("reverse-dns-"+k, []string)))
+//@ atunlock[C18.map.store]  has(outputIPs, string(ip)) && forallstr(s, s != string(ip) ==> has(outputIPs, s) == atlock(has(outputIPs, s)) && outputIPs[s] == atlock(outputIPs[s]))
+//@ ensures[C14.unlocked]    !held(mu)
+//@ modifies map(outputIPs), mu, ghost clock, ghost cache.has, ghost cache.tag, ghost cache.ref, ghost cache.exp, ghost dns.ans, ghost dns.len, ghost dns.n
